@@ -49,6 +49,73 @@ theorem C09_earlier_wraps_later (D : List Dir) (hn : D.Nodup) (adds : Dir → Bo
     (hab : idx D a < idx D b) : [a, b].Sublist (siteMiddleware adds (execSeq D blocks) i j) :=
   sublist_order (siteMiddleware_sublist adds blocks i j D) hn a b ha hb hab
 
+/-- Parsing callbacks follow their directive: with a duplicate-free directive list, the whole
+sequence of setup calls AND parsing callbacks is sorted by `rank` (setups of the directive at list
+position i: 2i, its callback: 2i+1) — for every block contents and every set of registered
+callbacks.  So the callback after `d` runs after every setup of `d` (and of every earlier directive)
+and before every setup of every later directive. -/
+theorem C09_parsing_callbacks_follow_their_directive (cbs : Dir → Bool) (D : List Dir) (hn : D.Nodup)
+    (blocks : List Block) : (execEvents cbs D blocks).Pairwise (fun a b => rank D a ≤ rank D b) :=
+  execEvents_sorted cbs blocks D hn
+
+/-- spelled out: no setup of `d` or of an earlier directive comes after the callback of `d`, and no
+setup of a later directive comes before it -/
+theorem C09_callback_between (cbs : Dir → Bool) (D : List Dir) (hn : D.Nodup) (blocks : List Block) (d : Dir) (c : Call) :
+    ([Event.cb d, Event.setup c].Sublist (execEvents cbs D blocks) → idx D d < idx D c.dir) ∧
+    ([Event.setup c, Event.cb d].Sublist (execEvents cbs D blocks) → idx D c.dir ≤ idx D d) := by
+  have h : ∀ {a b : Event}, [a, b].Sublist (execEvents cbs D blocks) → rank D a ≤ rank D b :=
+    List.pairwise_iff_forall_sublist.mp (C09_parsing_callbacks_follow_their_directive cbs D hn blocks)
+  constructor
+  · intro hs
+    have := h hs
+    simp only [rank] at this
+    omega
+  · intro hs
+    have := h hs
+    simp only [rank] at this
+    omega
+
+/-- the callback of `d` runs exactly when `d` is in the list and a callback is registered after it
+— whether or not any block uses `d` — and reordering lines does not change the event sequence -/
+theorem C09_callback_runs_iff (cbs : Dir → Bool) (D : List Dir) (blocks : List Block) (d : Dir) :
+    Event.cb d ∈ execEvents cbs D blocks ↔ d ∈ D ∧ cbs d = true :=
+  mem_cb_execEvents cbs blocks d D
+
+theorem C09_events_independent (cbs : Dir → Bool) (D : List Dir) (blocks blocks' : List Block)
+    (h : BlocksPerm blocks blocks') : execEvents cbs D blocks = execEvents cbs D blocks' :=
+  execEvents_congr cbs D blocks blocks' h
+
+/-- Model and judge are one spec (stream `c09.callbacks`): on the model's own event sequences for a
+configuration and a stable reordering of its blocks' lines the schedule verdict is "ok". -/
+theorem C09_schedule_model_verdict_ok (cbs : Dir → Bool) (D : List Dir) (hn : D.Nodup)
+    (blocks blocks' : List Block) (h : BlocksPerm blocks blocks') :
+    scheduleVerdict D cbs (execEvents cbs D blocks) (execEvents cbs D blocks') = "ok" := by
+  have heq := C09_events_independent cbs D blocks blocks' h
+  have hs := adjSorted_of_pairwise D _ (C09_parsing_callbacks_follow_their_directive cbs D hn blocks')
+  have hc : (D.all fun d => cbCount (execEvents cbs D blocks') d == (if cbs d then 1 else 0)) = true := by
+    rw [List.all_eq_true]
+    intro d hd
+    rw [cbCount_execEvents cbs blocks' d D hn]
+    by_cases hcb : cbs d = true <;> simp [hd, hcb]
+  simp [scheduleVerdict, heq, scheduleOk, hs, hc]
+
+/-- Regenerated fact: WHICH parsing callbacks the distribution registers (the
+`RegisterParsingCallback` call sites): hiding the Casketfile follows `root`, activating HTTPS
+follows `tls`; both directives are in the `setup` class, hence (documented order) their callbacks
+have run before any request-handling directive is set up. -/
+theorem parsing_callbacks_regenerated :
+    Casket.Generated.registeredParsingCallbacks = [("root", "hideCasketfile"), ("tls", "activateHTTPS")] ∧
+    (Casket.Generated.registeredParsingCallbacks.all fun p => clsSetup.members.contains p.1) = true := by
+  decide
+
+/-- test: root's callback sits between root's setup and browse's, whichever line is written first -/
+example :
+    let cbs : Dir → Bool := fun d => (Casket.Generated.registeredParsingCallbacks.map (·.1)).contains d
+    let b1 : Block := ⟨["k"], [⟨"browse", ["browse", "/dir"]⟩, ⟨"root", ["root", "/srv"]⟩]⟩
+    ((execEvents cbs Casket.Generated.directives [b1]).filter fun e => e.dir == "root" || e.dir == "browse" || e.dir == "tls")
+      = [.setup ⟨"root", 0, 0, ["root", "/srv"]⟩, .cb "root", .cb "tls", .setup ⟨"browse", 0, 0, ["browse", "/dir"]⟩] := by
+  decide
+
 /-- Model and judge are one spec: for a block and a stable reordering of it the model's two
 handler chains satisfy the predicate the driver applies to the chains of the real loader. -/
 theorem C09_model_verdict_ok (D : List Dir) (ls ls' : List Line) (h : StablePerm ls ls') :
